@@ -20,6 +20,8 @@ CONFIG_COMPONENTS = {
     "configB": [("FPMulB", "compute"), ("SeqB", "sequencer")],
 }
 LOOP_ORDERS = [["M", "K", "N"], ["K", "M", "N"]]
+# output names deliberately not in alphabetical order (a dump that sorts blocks must be noticed)
+NAMES = ["T", "P", "Z", "Q", "R", "E"]
 
 
 def events(tier):
@@ -59,7 +61,7 @@ def build_yaml(hist):
     decl = {"A": ["K", "M"], "B": ["K", "N"]}
     exprs, lo, st, bind = [], {}, {}, {}
     for i, ev in enumerate(hist):
-        t = "T%d" % i
+        t = NAMES[i]
         decl[t] = ["K", "M", "N"]
         exprs.append("%s[k, m, n] = A[k, m] * B[k, n]" % t)
         lo[t] = list(ev["lo"])
@@ -95,14 +97,14 @@ def build_yaml(hist):
 
 def legal(hist, blocks):
     """Independent reference: the statement of C13 applied to the generating events."""
-    names = ["T%d" % i for i in range(len(hist))]
+    names = NAMES[:len(hist)]
     flat = [e for b in blocks for e in b]
     if flat != names:
         return "blocks %r are not an ordered contiguous partition of %r" % (blocks, names)
     if any(len(b) == 0 for b in blocks):
         return "empty block in %r" % (blocks,)
     for b in blocks:
-        evs = [hist[int(n[1:])] for n in b]
+        evs = [hist[NAMES.index(n)] for n in b]
         if len({e["cfg"] for e in evs}) > 1:
             return "block %r mixes hardware configurations" % (b,)
         if len({tuple(prefix_of(e)) for e in evs}) > 1:
@@ -121,10 +123,10 @@ def greedy(hist):
     for i, e in enumerate(hist):
         key = (e["cfg"], tuple(prefix_of(e)))
         if cur and cur[0] == key and not (cur[1] & set(e["comps"])):
-            blocks[-1].append("T%d" % i)
+            blocks[-1].append(NAMES[i])
             cur[1] |= set(e["comps"])
         else:
-            blocks.append(["T%d" % i])
+            blocks.append([NAMES[i]])
             cur = [key, set(e["comps"])]
     return blocks
 
